@@ -59,6 +59,11 @@ type cdata struct {
 	fired   int
 	fire    *ctl.Actor
 	relSeen bool // its own release (error path) was already listed as a release actor
+	// Access (kind 2): the context and value its callback was invoked with (valid while the actor is inside the callback), and
+	// the result the callback is to return: 0 nil, 1 its ctx.Err(), otherwise an error code
+	cbctx context.Context
+	cbval uint64
+	cbres uint64
 }
 
 type sys struct {
@@ -77,6 +82,10 @@ type sys struct {
 	cons    []*ctl.Actor
 	rellog  [][3]uint64
 	relseen int
+	// constVal: the resolver returns the constant value 7 for every generation (config flag 2)
+	constVal bool
+	// wantAcc: this history uses Access consumers
+	wantAcc bool
 	// poisoned: a library call panicked while holding the RefCount mutex; nothing can be driven any further
 	poisoned bool
 }
@@ -107,7 +116,7 @@ func codeOf(err error) uint64 {
 }
 
 func newSys(w *hist.W, cfg []uint64) *sys {
-	s := &sys{c: ctl.New(), w: w}
+	s := &sys{c: ctl.New(), w: w, constVal: len(cfg) > 1 && cfg[1] == 1}
 	s.target = ccontainer.NewCContainer[uint64](0)
 	s.terr = ccontainer.NewCContainer[*error](nil)
 	s.roots = []context.Context{nil}
@@ -188,14 +197,40 @@ func (s *sys) resolver(ctx context.Context, released func()) (uint64, func(), er
 		rel = func() {
 			stale := uint64(0)
 			for _, r := range s.refs {
-				if r.kind != 0 && r.kind != 9 && s.inSet(r) && r.last == [3]uint64{2, g + 1, errc} {
+				if r.kind != 0 && r.kind != 9 && s.inSet(r) && r.last == [3]uint64{2, s.valOf(g), errc} {
 					stale++
 				}
 			}
 			s.rellog = append(s.rellog, [3]uint64{g, s.target.GetValue(), stale})
 		}
 	}
-	return g + 1, rel, errOf(d.errc)
+	return s.valOf(g), rel, errOf(d.errc)
+}
+
+// valOf is the value the resolver call on goroutine g returns.
+func (s *sys) valOf(g uint64) uint64 {
+	if s.constVal {
+		return 7
+	}
+	return g + 1
+}
+
+// genOf is the goroutine whose result a reference callback is being told (resolved = true): with generation-unique
+// values it is read off the value; otherwise it is the goroutine whose store section ran last (stores happen in
+// goroutine order, and a stored result is only current while no later goroutine exists that stored).
+func (s *sys) genOf(val uint64) int {
+	if !s.constVal {
+		if val >= 1 && int(val-1) < len(s.gors) {
+			return int(val - 1)
+		}
+		return -1
+	}
+	for i := len(s.gors) - 1; i >= 0; i-- {
+		if s.gors[i].Data.(*gdata).stored {
+			return i
+		}
+	}
+	return -1
 }
 
 // inSet is the harness's own view of which logging references were not yet removed (their removeRef section ran).
@@ -208,9 +243,11 @@ func (s *sys) mkCallback(rd *refdata) func(bool, uint64, error) {
 		} else {
 			rd.last = [3]uint64{1, 0, 0}
 		}
-		if rd.kind == 2 && resolved && val >= 1 && int(val-1) < len(s.gors) {
-			if d := s.gors[val-1].Data.(*gdata); d.released != nil {
-				d.released()
+		if rd.kind == 2 && resolved {
+			if g := s.genOf(val); g >= 0 {
+				if d := s.gors[g].Data.(*gdata); d.released != nil {
+					d.released()
+				}
 			}
 		}
 	}
@@ -298,6 +335,8 @@ func (s *sys) obs(rets []uint64) []uint64 {
 		d := ca.Data.(*cdata)
 		if d.ret {
 			o = append(o, 3, d.v, d.e, b2u(d.held))
+		} else if d.kind == 2 && ca.InUser() == 2 {
+			o = append(o, 6, d.cbval, 0, b2u(d.cbctx.Err() != nil))
 		} else {
 			o = append(o, 2, 0, 0, 0)
 		}
@@ -415,7 +454,7 @@ func (s *sys) exec(ev []uint64) (obs []uint64, ok bool) {
 		d.stored = true
 		s.c.Step(a)
 	case 10:
-		if ev[1] > 1 {
+		if ev[1] > 2 {
 			return nil, false
 		}
 		ctx, cancel := context.WithCancel(context.Background())
@@ -426,6 +465,23 @@ func (s *sys) exec(ev []uint64) (obs []uint64, ok bool) {
 		rd := &refdata{kind: 9}
 		s.refs = append(s.refs, rd)
 		s.c.Go(a, func(a *ctl.Actor) {
+			if d.kind == 2 {
+				err := s.rc.Access(ctx, func(cbCtx context.Context, val uint64) error {
+					d.cbctx, d.cbval = cbCtx, val
+					s.c.ParkUser(a, 2)
+					switch d.cbres {
+					case 0:
+						return nil
+					case 1:
+						return cbCtx.Err()
+					default:
+						return errOf(d.cbres)
+					}
+				})
+				d.v, d.e, d.held = codeOf(err), 0, false
+				d.ret = true
+				return
+			}
 			if d.kind == 0 {
 				val, ref, err := s.rc.Wait(ctx)
 				d.v, d.e, d.held, d.ref = val, codeOf(err), ref != nil, ref
@@ -472,6 +528,17 @@ func (s *sys) exec(ev []uint64) (obs []uint64, ok bool) {
 			return nil, false
 		}
 		s.c.Step(d.fire)
+	case 13:
+		i := int(ev[1])
+		if i >= len(s.cons) || (ev[2] != 0 && ev[2] != 1 && ev[2] != 10 && ev[2] != 11) {
+			return nil, false
+		}
+		d := s.cons[i].Data.(*cdata)
+		if d.kind != 2 || s.cons[i].InUser() != 2 {
+			return nil, false
+		}
+		d.cbres = ev[2]
+		s.c.StepUser(s.cons[i])
 	default:
 		return nil, false
 	}
@@ -502,7 +569,9 @@ func (s *sys) teardown() {
 func pick(r *rand.Rand, xs []int) int { return xs[r.IntN(len(xs))] }
 
 func (s *sys) gen(r *rand.Rand, maxG int) []uint64 {
-	var gate0, inres, store, entered, relparked, relrefs, firep, conslive []int
+	var gate0, inres, store, entered, relparked, relrefs, firep, conslive, incb []int
+	na := len(s.parkedAsyncs())
+	room := len(s.gors) < maxG
 	for i, a := range s.gors {
 		d := a.Data.(*gdata)
 		switch {
@@ -536,9 +605,38 @@ func (s *sys) gen(r *rand.Rand, maxG int) []uint64 {
 		if !d.ret && !d.canc {
 			conslive = append(conslive, i)
 		}
+		if d.kind == 2 && ca.InUser() == 2 {
+			incb = append(incb, i)
+		}
 	}
-	na := len(s.parkedAsyncs())
-	room := len(s.gors) < maxG
+	cbres := func() uint64 { return []uint64{0, 0, 1, 1, 10, 11}[r.IntN(6)] }
+	// while an Access callback runs: invalidate its value, let the replacement be resolved, return before and after
+	if len(incb) > 0 && r.IntN(2) == 0 {
+		newest := len(s.gors) - 1
+		for tries := 0; tries < 40; tries++ {
+			x := r.IntN(100)
+			switch {
+			case x < 14:
+				return []uint64{13, uint64(pick(r, incb)), cbres()}
+			case x < 30 && newest >= 0 && s.gors[newest].Data.(*gdata).released != nil && room:
+				return []uint64{5, uint64(newest)}
+			case x < 38 && room:
+				return []uint64{1, uint64(1 + r.IntN(2))}
+			case x < 58 && len(gate0) > 0:
+				return []uint64{7, uint64(pick(r, gate0)), 0}
+			case x < 78 && len(inres) > 0:
+				e := uint64(0)
+				if r.IntN(6) == 0 {
+					e = 2 + uint64(r.IntN(2))
+				}
+				return []uint64{8, uint64(pick(r, inres)), uint64(b2u(r.IntN(4) > 0)), e}
+			case x < 96 && len(store) > 0:
+				return []uint64{9, uint64(pick(r, store))}
+			case x < 100 && len(conslive) > 0:
+				return []uint64{11, uint64(pick(r, conslive))}
+			}
+		}
+	}
 	for tries := 0; tries < 300; tries++ {
 		x := r.IntN(100)
 		switch {
@@ -573,7 +671,12 @@ func (s *sys) gen(r *rand.Rand, maxG int) []uint64 {
 		case x < 88 && len(store) > 0:
 			return []uint64{9, uint64(pick(r, store))}
 		case x < 92 && len(s.cons) < 3 && len(s.refs) < 8 && room:
+			if s.wantAcc && r.IntN(2) == 0 {
+				return []uint64{10, 2}
+			}
 			return []uint64{10, uint64(r.IntN(2))}
+		case x < 93 && len(incb) > 0:
+			return []uint64{13, uint64(pick(r, incb)), cbres()}
 		case x < 94 && len(conslive) > 0:
 			return []uint64{11, uint64(pick(r, conslive))}
 		case x < 100 && len(firep) > 0:
@@ -585,7 +688,7 @@ func (s *sys) gen(r *rand.Rand, maxG int) []uint64 {
 
 func (s *sys) count(ev, obs []uint64) {
 	names := map[uint64]string{1: "setcontext", 2: "addref", 3: "release", 4: "removeref_section", 5: "released_sync", 6: "released_async_section",
-		7: "proceed", 8: "resolver_return", 9: "store", 10: "consumer", 11: "consumer_cancel", 12: "wwr_fire_section"}
+		7: "proceed", 8: "resolver_return", 9: "store", 10: "consumer", 11: "consumer_cancel", 12: "wwr_fire_section", 13: "access_callback_return"}
 	s.w.Count("ev."+names[ev[0]], 1)
 	inres, blocked := 0, 0
 	for _, a := range s.gors {
@@ -605,13 +708,32 @@ func (s *sys) count(ev, obs []uint64) {
 	if len(s.parkedAsyncs()) > 0 {
 		s.w.Count("obs.async_released_parked", 1)
 	}
+	if ev[0] == 10 && ev[1] == 2 {
+		s.w.Count("ev.consumer_access", 1)
+	}
+	for _, ca := range s.cons {
+		d := ca.Data.(*cdata)
+		if d.kind == 2 && ca.InUser() == 2 {
+			s.w.Count("obs.access_in_callback", 1)
+			if d.cbctx.Err() != nil && !d.canc {
+				s.w.Count("obs.access_callback_ctx_cancelled_by_invalidation", 1)
+				if s.target.GetValue() == d.cbval && d.cbval != 0 {
+					s.w.Count("obs.access_aba_value_equal_again", 1)
+				}
+			}
+		}
+		if d.kind == 2 && d.ret && ev[0] == 4 {
+			s.w.Count("obs.access_returned", 1)
+		}
+	}
 }
 
 func runRandom(t *testing.T, w *hist.W, h int) {
 	r := hist.Rng(h)
 	synctest.Test(t, func(t *testing.T) {
-		cfg := []uint64{uint64(r.IntN(2))}
+		cfg := []uint64{uint64(r.IntN(2)), uint64(b2u(r.IntN(4) == 0))}
 		s := newSys(w, cfg)
+		s.wantAcc = r.IntN(3) == 0 || cfg[1] == 1
 		defer s.teardown()
 		w.Begin(fmt.Sprintf("r%d", h), cfg)
 		steps := 10 + r.IntN(60)
@@ -633,6 +755,7 @@ func runRandom(t *testing.T, w *hist.W, h int) {
 		}
 		w.Count(fmt.Sprintf("len.%02d", min(steps/10, 6)*10), 1)
 		w.Count(fmt.Sprintf("cfg.keep%d", cfg[0]), 1)
+		w.Count(fmt.Sprintf("cfg.const%d", cfg[1]), 1)
 		w.Count("release_calls", len(s.rellog))
 	})
 }
